@@ -444,6 +444,24 @@ func init() {
 			}
 			c18Check(c, picked[i], false)
 		})
+		// names whose last character ends in each possible UTF-8 continuation byte, as the last thing on the line
+		// (through the one-line engine: the rule is read back from the list on the first query)
+		var edge int64
+		for _, lead := range []string{"\xc3", "\xd0", "\xd1"} {
+			for b := 0x80; b <= 0xbf; b++ {
+				name := "www.citt" + lead + string([]byte{byte(b)})
+				for _, l := range []c18Line{{line: "0.0.0.0 " + name, addr: "0.0.0.0", names: []string{name}}, {line: "0.0.0.0 first.test " + name, addr: "0.0.0.0", names: []string{"first.test", name}}} {
+					// (whether such a name is a host name at all is the parser's decision: only accepted lines are followed up)
+					if r, err := rules.NewRule(l.line, 1); err == nil && r != nil {
+						if _, isHost := r.(*rules.HostRule); isHost {
+							c18Check(c, l, true)
+							edge++
+						}
+					}
+				}
+			}
+		}
+		c.Run.Set("last_byte_lines", edge)
 		c.Run.Set("big_list_evaluations", c18BigList(c))
 		c.Run.Set("corpus_lines", int64(len(picked)))
 		c.Run.Set("evaluations", int64(len(lines)+len(picked)))
